@@ -48,7 +48,8 @@ TCommit ==
 \* a commit on main: the content the harness wrote on main is the model's file
 TBaseAdv ==
   /\ l <= Len(TraceLog) /\ Rec.ev = "BaseAdv"
-  /\ BaseAdvance(Rec.op.ns.src, IF Rec.op.op = "BaseAdvancetop" THEN "top" ELSE "end")
+  /\ IF Rec.op.op = "BaseAdvanceedit" THEN BaseAdvanceEdit(Rec.op.ns.src, Rec.op.k, Rec.op.rule)
+     ELSE BaseAdvance(Rec.op.ns.src, IF Rec.op.op = "BaseAdvancetop" THEN "top" ELSE "end")
   /\ IF MainFile(base, mainNew', Rec.op.ns.src) = Rec.op.file THEN TRUE
      ELSE PrintT(<<"GITDRIFT", cid, ToJson([what |-> "base advance content", op |-> Rec.op])>>)
   /\ l' = l + 1 /\ UNCHANGED <<cid, done>>
